@@ -80,3 +80,43 @@ def runs_always(fn, var, is_target, initial=("ok", "fail")):
             new |= _after(on_fail) if on_fail is not None else {"fail"}
         state = new
     return False, False, sorted(state)
+
+
+def preserves_failure(f):
+    """an errback function (FunctionDef or Lambda with the failure as first parameter) that can only end by raising or by returning
+    that very parameter: the chain stays failed after it.  `f.trap(..)` RETURNS (the matched class) for the exceptions it names and a
+    function that falls off its end returns None - both turn the failure into a success."""
+    args = f.args.args
+    if isinstance(f, ast.Lambda):
+        p = args[0].arg if args else None
+        return isinstance(f.body, ast.Name) and f.body.id == p
+    skip = 1 if (args and args[0].arg == "self") else 0
+    p = args[skip].arg if len(args) > skip else None
+    from .cfg import build
+    g = build(f)
+    rets = [s for s in ast.walk(f) if isinstance(s, ast.Return)]
+    for r in rets:
+        if not (isinstance(r.value, ast.Name) and r.value.id == p):
+            return False
+    # falling off the end = implicit `return None`: the normal exit must be reached through a Return statement only
+    for (x, lab) in g.pred[g.exit]:
+        if not isinstance(g.stmt.get(x), ast.Return):
+            return False
+    stores = [n for n in ast.walk(f) if isinstance(n, ast.Name) and n.id == p and isinstance(n.ctx, ast.Store)]
+    return not stores
+
+
+def failure_to_success_stages(fn, var, resolve):
+    """stages of the chain on `var` whose errback-side function may turn a failure into a success.  resolve(expr) -> function node or
+    None (unknown callables count as converting)"""
+    out = []
+    for (k, on_ok, on_fail, c) in stages(fn, var):
+        if on_fail is None:
+            continue
+        if dotted(on_fail) in SWALLOWERS:
+            out.append(c)
+            continue
+        target = resolve(on_fail)
+        if target is None or not preserves_failure(target):
+            out.append(c)
+    return out
